@@ -1,7 +1,8 @@
 """Per-property check procedures (see DESIGN.md section 4)."""
 import json, os
 from check import (subsample, build_harness, model_check, gen_random, play, validate, judge, finish, sample_behaviours,
-                   count_distinct, log, Machinery, read_lines, validate_single, harness)
+                   count_distinct, log, Machinery, read_lines, validate_single, harness, flow_step, flow_record,
+                   flow_attribution)
 
 TB_CONN = ["TLC 1.8.0 (model checking and trace validation)",
            "harness: in-memory transport (event order under one mutex), strict PostgreSQL v3 decoder, "
@@ -15,7 +16,7 @@ ASSUME_CONN = ["handler-supplied strings contain no NUL byte",
 def conn_family(cx, model, gen_prop, n_quick, n_thorough, consts_thorough=None, rule="", extra_models=(),
                 trace_module="Trace_PgConn", trace_cfg=None, mc_workers=1, known_match=None, gen_extra=None,
                 play_extra=None, negative=(), proj=None, max_replay_quick=6000, max_replay_thorough=60000,
-                finish_now=True):
+                finish_now=True, flow=False):
     """Generic procedure for properties decided on the single-connection machine."""
     build_harness(cx)
     thorough = cx.tier == "thorough"
@@ -38,6 +39,8 @@ def conn_family(cx, model, gen_prop, n_quick, n_thorough, consts_thorough=None, 
         b2 = gen_random(cx, gen_prop, n_thorough if thorough else n_quick, extra=gen_extra)
         files.append(("rand", b2, default_proj))
     for tag, b, pj in files:
+        if os.environ.get("VERIF_ONLY_FLOW"):
+            break   # diagnostic: judge only the recorded conversations (PgFlow)
         play_extra = base_extra + ["-proj", pj]
         if tag.startswith("tlc"):
             subsample(cx, b, max_replay_thorough if thorough else max_replay_quick)
@@ -46,6 +49,11 @@ def conn_family(cx, model, gen_prop, n_quick, n_thorough, consts_thorough=None, 
         rejected = [] if crash else validate(cx, trace, trace_module, trace_cfg)
         judge(cx, b, trace, rejected, crash, trace_module, trace_cfg=trace_cfg, known_match=known_match,
               play_extra=play_extra)
+    if flow and not cx.violations:
+        flow_step(cx, b2 if gen_prop else None)
+        rule += (" In addition the raw conversations of the repository's own test suite (pgx, lib/pq, raw sockets) and of "
+                 "the random sessions, recorded by the connection recorder hook, are judged by the handler-agnostic "
+                 "specification PgFlow (Trace_PgFlow); only rejections attributed to this property are reported here.")
     count_distinct(cx, *[f[1] for f in files])
     cx.cov["trusted_base"] = TB_CONN
     if not finish_now:
@@ -55,7 +63,7 @@ def conn_family(cx, model, gen_prop, n_quick, n_thorough, consts_thorough=None, 
 
 def c05(cx):
     return conn_family(
-        cx, "MC_C05", "C05", 300, 5000,
+        cx, "MC_C05", "C05", 300, 5000, flow=True,
         consts_thorough={"MaxOps": 4, "MaxOpsMulti": 2},
         rule="TLC enumerates every simple Query script of the bounded model (parser outcome blank/error/0..3 "
              "statements x every result-writer program up to MaxOps operations + return) and exports one behaviour "
@@ -67,7 +75,7 @@ def c05(cx):
 
 def c06(cx):
     return conn_family(
-        cx, "MC_C06", "C06", 500, 10000,
+        cx, "MC_C06", "C06", 500, 10000, flow=True,
         consts_thorough={"Rich": "TRUE", "MaxSends": 14},
         rule="TLC explores every history of extended-protocol messages over names {'',a} x portals {'',p} (known/"
              "unknown, parser and handler success/failure, interleaved simple queries; thorough adds Close, NoData "
@@ -118,7 +126,7 @@ def c17(cx):
 
 def c13(cx):
     return conn_family(
-        cx, "MC_C13", "C13", 500, 10000,
+        cx, "MC_C13", "C13", 500, 10000, flow=True,
         consts_thorough={"MaxCopy": 5},
         rule="TLC explores every sequence of up to MaxCopy client messages over {CopyData x2 payloads, CopyDone, CopyFail, "
              "Flush, Sync, simple Query, unknown message} following a CopyInResponse, for handlers that read to the end "
@@ -131,7 +139,7 @@ def c13(cx):
 
 def c01(cx):
     return conn_family(
-        cx, "MC_C01", "C01", 1000, 20000,
+        cx, "MC_C01", "C01", 1000, 20000, flow=True,
         consts_thorough={"MaxAfter": 3},
         rule="TLC explores the clear-text authentication of the bounded model: every validator outcome (accept/reject/"
              "fail), every message in place of the password (Query, Parse, Sync, Terminate, unknown, unterminated / "
@@ -146,7 +154,7 @@ def c01(cx):
 
 def c12(cx):
     rule = conn_family(
-        cx, "MC_C12", "C12", 1000, 20000,
+        cx, "MC_C12", "C12", 1000, 20000, flow=True,
         consts_thorough={"MaxKvs": 3},
         rule="TLC explores startup negotiation on the bounded model: every startup packet of up to MaxKvs pairs over 3 "
              "keys x {value, empty} (duplicates, missing terminator), 4 configured parameter maps (empty, plain, colliding "
@@ -170,7 +178,7 @@ def c12(cx):
 
 def c19(cx):
     return conn_family(
-        cx, "MC_C19", "C19", 1000, 20000,
+        cx, "MC_C19", "C19", 1000, 20000, flow=True,
         consts_thorough={"MaxMw": 4, "MaxCmds": 4},
         rule="TLC explores the session lifecycle on the bounded model: every list of up to MaxMw middlewares each "
              "succeeding or failing, auth on/off, terminate hook registered or not, every command history up to MaxCmds "
@@ -185,7 +193,7 @@ def c19(cx):
 def c10(cx):
     limits = "16,17,64,4095,4096,4097,8192,65536" + (",0,-1" if cx.tier == "thorough" else "")
     return conn_family(
-        cx, "MC_C10", "C10", 600, 10000,
+        cx, "MC_C10", "C10", 600, 10000, flow=True,
         consts_thorough={"MaxSends": 5},
         extra_models=[("MC_C10", "MC_C10pre.cfg", None, None, "C10pre")],
         play_extra=["-limits", limits],
@@ -264,6 +272,11 @@ def c14(cx):
         trace, crash = play(cx, b, tag, cmd="copybin")
         rejected = [] if crash else validate(cx, trace, "Trace_PgCopyBin")
         judge(cx, b, trace, rejected, crash, "Trace_PgCopyBin", play_cmd="copybin")
+    if flow and not cx.violations:
+        flow_step(cx, b2 if gen_prop else None)
+        rule += (" In addition the raw conversations of the repository's own test suite (pgx, lib/pq, raw sockets) and of "
+                 "the random sessions, recorded by the connection recorder hook, are judged by the handler-agnostic "
+                 "specification PgFlow (Trace_PgFlow); only rejections attributed to this property are reported here.")
     count_distinct(cx, *[f[1] for f in files])
     cx.cov["trusted_base"] = TB_CONN + ["harness: own binary encoders for the supported types, canonical rendering of decoded Go values"]
     return finish(cx, "model_checking",
@@ -506,6 +519,24 @@ def replay(cx, path):
     """Re-drive a replay bundle and re-validate it."""
     meta = json.load(open(os.path.join(path, "meta.json")))
     build_harness(cx)
+    if meta.get("play_cmd", "").startswith("flow-"):
+        # a recorded conversation: record again from the same source and judge with PgFlow
+        source = meta["play_cmd"][5:]
+        b = os.path.join(path, "behaviour.ndjson")
+        cx.seed = meta.get("seed", cx.seed)
+        for attempt in range(3):
+            t2, c2 = flow_record(cx, source, b if source == "play" else None, "replay%d" % attempt)
+            if c2:
+                log("replay: server crashed: " + c2["output"][-500:])
+                log("VIOLATION property=%s replay=%s" % (cx.pid, path))
+                return 1
+            rj = [r for r in validate(cx, t2, "Trace_PgFlow") if flow_attribution(r["tlc"]) == cx.pid]
+            if rj:
+                log(rj[0]["tlc"])
+                log("VIOLATION property=%s replay=%s" % (cx.pid, path))
+                return 1
+        log("replay: accepted (the violation does not reproduce on this tree)")
+        return 0
     b = os.path.join(path, "behaviour.ndjson")
     extra = ["-seedindex", str(meta.get("seedindex", 0))]
     cx.seed = meta.get("seed", cx.seed)
